@@ -818,6 +818,7 @@ func ruleC11Rest(c *Checker) {
 				return ok && ((bo.Op == token.GEQ && f.Val && k == v2) || (bo.Op == token.LSS && !f.Val && k == v2))
 			})
 		}
+		rulePublishOrder(c, "SIDFRESH")
 		c.decide(okk, "SIDFRESH", "DoHandshake|SetRemote for version >= 2", dh.Pos(), "both parties publish the remote static key when the negotiated version is >= 2", "the remote key is not published exactly for version >= 2: the two sides move to different rendezvous points")
 	}
 	c.floor("EXCL", 8)
